@@ -498,6 +498,9 @@ pub fn c06(cx: &mut Ctx) {
             if left > 0 && cx.rng.gen_bool(0.35) {
                 evs.push(json!({"e": "enq", "resp": rand_resp(&mut cx.rng, 8192)}));
                 left -= 1;
+            } else if cx.rng.gen_bool(0.04) {
+                // clear_write_buffer between two calls (what the server does on a hang-up)
+                evs.push(json!({"e": "clear"}));
             } else if cx.rng.gen_bool(0.12) {
                 // input arrives while output is pending: valid, malformed, partial, would-block
                 let bytes: Vec<u8> = match cx.rng.gen_range(0..5) {
